@@ -29,7 +29,7 @@ ASSUMPTIONS = [
     "a set of uniforms of measure <= 1e-12 next to 1 may be answered arbitrarily (floating-point total of the probabilities)",
     "chain targets are the quadrature cell masses of C01 (tolerance 1e-8 relative + 1e-12)",
 ]
-REQUIRED_COUNTERS = ["laws_measured", "batch_elements_compared", "history_replays", "zero_probability_states_watched",
+REQUIRED_COUNTERS = ["uniforms_at_the_lower_end_point", "laws_measured", "batch_elements_compared", "history_replays", "zero_probability_states_watched",
                      "table_words_classes", "infinite_variation_copula_chains", "used_sampler_copies"]
 MIN_NONTRIVIAL = {"quick": 80, "thorough": 600}
 SHARD_TIMEOUT = {"quick": 900, "thorough": 7200}
@@ -107,6 +107,12 @@ def gen_cases(tier, seed):
             g["h_div"] = 6.0
         cases.append({"kind": "chain", "model": fixed[(2 * k) % len(fixed)], "grid": g, "level": 0, "methods": [meth],
                       "seed": int(rng.integers(2**31)), "refine_after": True})
+    # one-sided measures (upward jumps only / downward jumps only): every state of the other side has probability zero
+    for k in range(2 if not thorough else 8):
+        m = W.gen_model_spec(rng, "HEM", exp=False)
+        m["params"]["p"] = 1.0 if k % 2 == 0 else 1e-300          # (p = 0 is refused by the parameter class)
+        cases.append({"kind": "chain", "model": m, "grid": {"ctor": "fixed", "dim": 1, "h": W.r6(rng.uniform(0.02, 0.08)), "n": int(rng.choice([7, 9, 13]))}, "level": 0,
+                      "methods": list(C.METHODS_1D), "seed": int(rng.integers(2**31)), "refine_after": False})
     # chains: n-d (finite-variation margins: see C01)
     n2 = n3 = 0
     for j in range(8 if not thorough else 60):
@@ -490,6 +496,22 @@ def _chain_body(case, R, mspec, model, grid, g, lev, rng, is_copula):
                     R.violation(f"{keyp}-returns-{what}", f"{desc}: returns the {what} state on a set of uniforms of measure {v!r}", witness)
             _judge_law(R, keyp, desc, {s: v for s, v in lengths.items() if s in adm or s == index[origin_state]}, target,
                        tol_o + 1e-12, witness, set(range(K)))
+            # the end point u = 0 (and the smallest positive doubles) is a value of the uniform like any other: the state it is sent to has
+            # a positive probability
+            for u0 in (0.0, 5e-324, 1e-300):
+                try:
+                    s0 = f(u0)
+                except Exception as exc:  # noqa: BLE001
+                    R.violation(f"{keyp}-raises-at-u-equal-0", f"{desc}: raises {type(exc).__name__} for the uniform {u0!r}", witness)
+                    break
+                R.hit("uniforms_at_the_lower_end_point")
+                k0 = index.get(s0, None)
+                if k0 is None or k0 == index[origin_state] or target[k0] == 0.0:
+                    what0 = "outside the grid" if k0 is None else ("the origin" if k0 == index[origin_state] else "a state of probability zero")
+                    # (keyed by the method alone: the same interval convention in every dimension)
+                    R.violation(f"uniform-at-the-lower-end-point-sent-to-" + what0.replace(" ", "-") + f"-{method}", f"{desc}: the uniform {u0!r} is sent to {s0!r}, {what0} "
+                                f"(target probability {0.0 if k0 is None else float(target[k0])!r})", witness)
+                    break
             us = _probe_us(rng, 30)
             singles = [f(u) for u in us]
             try:
